@@ -219,7 +219,8 @@ ESCAPES = [   # must be rejected: valid only BECAUSE of a wrapper
     ('expr', 'a), (b'), ('expr', ') + ('), ('expr', 'a)\n(b'), ('expr_slice', 'a], x[b'), ('expr_arglike', 'a), f(b'), ('keyword', 'k=v), f(j=w'),
     ('alias', 'a\nimport b'), ('withitem', 'a: pass\nwith b'), ('pattern', 'a: pass\n case b'), ('comprehension', 'for i in a] + [j'), ('arguments', 'a): pass\ndef g(b'),
     ('arg', 'a): pass\ndef g(b'), ('type_param', 'T](): pass\ndef g[U'), ('expr', 'a # c\n) + (b'), ('expr', ''), ('expr', 'a b'), ('stmt', 'x = 1; y = 2'), ('expr', 'x = 1'),
-    ('pattern', '1 + 2'), ('withitem', 'a as (b'), ('match_case', 'case a: pass\ncase b: pass'), ('ExceptHandler', 'except A: pass\nexcept B: pass'),
+    ('pattern', '1 + 2'), ('withitem', 'a as (b'), ('keyword', 'a, b=1'), ('keyword', 'b=1, *a'), ('keyword', 'a=1).b(c=2'), ('arg', 'a, b'), ('pattern', 'a if b'),
+    ('pattern', 'a:\n  if 1'), ('expr_slice', '1].b[2'), ('alias', 'a, b'), ('withitem', 'a, b'), ('type_param', 'T, U'), ('comprehension', 'for i in a for j in b'), ('arguments', 'a) -> (b'), ('match_case', 'case a: pass\ncase b: pass'), ('ExceptHandler', 'except A: pass\nexcept B: pass'),
 ]
 
 
